@@ -35,6 +35,20 @@ func (p AuditPath) Get(pos []byte) ([]byte, bool) {
 	return digest, ok
 }
 
+// wellFormed reports whether every value of the audit path has the length of a
+// digest of the given hasher. The verifiers concatenate these values before hashing
+// them: a value of any other length would let bytes be moved from one entry to its
+// sibling without changing the concatenation (and thus the recomputed hash).
+func (p AuditPath) wellFormed(hasher hashing.Hasher) bool {
+	size := int(hasher.Len() / 8)
+	for _, digest := range p {
+		if len(digest) != size {
+			return false
+		}
+	}
+	return true
+}
+
 func (p AuditPath) Serialize() map[string]hashing.Digest {
 	s := make(map[string]hashing.Digest, len(p))
 	for k, v := range p {
@@ -115,6 +129,11 @@ func (p IncrementalProof) Verify(startDigest, endDigest hashing.Digest) (correct
 			correct = false
 		}
 	}()
+
+	// an audit path that holds anything but digests is invalid
+	if !p.AuditPath.wellFormed(p.hasher) {
+		return false
+	}
 
 	// build two visitable pruned trees and then visit them to recompute root hash
 	visitor := newComputeHashVisitor(p.hasher, p.AuditPath)
